@@ -49,7 +49,9 @@ M = {
                            'RecursionError of long operator chains escapes again'),
     'c06-no-compile-guard': ('C06', [(SRC + 'context.py', "            compile('class _:\\n' + self.__build_function('_', code), '<cell>', 'exec')", "            pass")],
                              'a formula nested >100 levels is emitted although Python cannot compile it'),
-    'c06-row-zero': ('C06', [(SRC + 'handle_cell.py', "            if int(cell.row) < 1:", "            if int(cell.row) < 0:")], 'A0 accepted: method name _0_0_-1'),
+    'c06-row-zero': ('C06', [(SRC + 'handle_cell.py', "            if int(cell.row) < 1:", "            if int(cell.row) < 0:"),
+                             (SRC + 'handle_cell.py', "not isinstance(coordinate, int) or coordinate < 0:", "not isinstance(coordinate, int) or coordinate < -1:")],
+                     'A0 accepted: method name _0_0_-1 (both layers removed: the row text check and the whole-number check of D97 - either alone is an equivalent mutant now)'),
     'c06-constant-str': ('C06', [(SRC + 'translators/cell_translator.py', "                code = repr(cell.value)\n",
                                   "                code = repr(cell.value) if not isinstance(cell.value, str) or '\\\\' not in cell.value else '\"' + cell.value + '\"'\n")],
                          'text constants containing a backslash are emitted between plain double quotes'),
